@@ -648,7 +648,7 @@ fn rnd_ds(r: &mut Rng, depth: usize, max_el: usize) -> Value {
             "IS" => {
                 if r.coin() {
                     rep = "strs".into();
-                    vals = fill(&mut |r| Value::from(rnd_dec_string(r, true)), r, m);
+                    vals = fill(&mut |r| Value::from(if r.below(7) == 0 { String::new() } else { rnd_dec_string(r, true) }), r, m);
                 } else {
                     rep = "i32".into();
                     vals = fill(&mut |r| rnd_int(r, i32::MIN as i128, i32::MAX as i128), r, m);
@@ -657,7 +657,7 @@ fn rnd_ds(r: &mut Rng, depth: usize, max_el: usize) -> Value {
             "DS" => match r.below(3) {
                 0 => {
                     rep = "strs".into();
-                    vals = fill(&mut |r| Value::from(rnd_dec_string(r, false)), r, m);
+                    vals = fill(&mut |r| Value::from(if r.below(7) == 0 { String::new() } else { rnd_dec_string(r, false) }), r, m);
                 }
                 1 => {
                     rep = "f64".into();
